@@ -166,82 +166,241 @@ theorem wireLookup_of_no_match (d : Dict) (name : Str) (h : ∀ k ∈ dictKeys d
     rw [wireLookup_cons, h k0 (by simp [dictKeys])]
     exact ih (fun k hk => h k (by simp only [dictKeys, List.map_cons, List.mem_cons]; exact Or.inr hk))
 
-/-- Exactly the key `k0` matches the name: one line, the dict's value for `k0`. -/
-theorem wireLookup_of_unique (d : Dict) (hnd : (dictKeys d).Nodup) (name k0 : Str)
-    (h : ∀ k ∈ dictKeys d, ciEq k name = true ↔ k = k0) : wireLookup d name = (dictGet d k0).toList := by
+/-! ### `merge_headers` -/
+
+theorem ciEq_comm (a b : Str) : ciEq a b = ciEq b a := by
+  simp only [ciEq]; exact Bool.beq_comm
+
+@[simp] theorem dictUpdateCI_nil (d : Dict) : dictUpdateCI d [] = d := rfl
+
+theorem dictUpdateCI_cons (d : Dict) (kv : Str × Str) (e : Dict) :
+    dictUpdateCI d (kv :: e) = dictUpdateCI (dictSetCI d kv.1 kv.2) e := rfl
+
+theorem dictUpdateCI_single (d : Dict) (k v : Str) : dictUpdateCI d [(k, v)] = dictSetCI d k v := rfl
+
+theorem dictUpdateCI_append (d a b : Dict) : dictUpdateCI d (a ++ b) = dictUpdateCI (dictUpdateCI d a) b := by
+  simp [dictUpdateCI, List.foldl_append]
+
+theorem otherSpelling_self (k : Str) : otherSpelling k k = false := by simp [otherSpelling]
+
+theorem otherSpelling_of_ne {k k' : Str} (h : k' ≠ k) : otherSpelling k k' = ciEq k' k := by
+  simp [otherSpelling, h]
+
+theorem dictSetCI_cons_self (d : Dict) (k v0 v : Str) :
+    dictSetCI ((k, v0) :: d) k v = (k, v) :: d.filter (fun kv => !otherSpelling k kv.1) := by
+  simp [dictSetCI, otherSpelling_self, dictSet]
+
+theorem dictSetCI_cons_variant (d : Dict) (k0 v0 k v : Str) (h1 : k0 ≠ k) (h2 : ciEq k0 k = true) :
+    dictSetCI ((k0, v0) :: d) k v = dictSetCI d k v := by
+  simp [dictSetCI, otherSpelling_of_ne h1, h2]
+
+theorem dictSetCI_cons_other (d : Dict) (k0 v0 k v : Str) (h : ciEq k0 k = false) :
+    dictSetCI ((k0, v0) :: d) k v = (k0, v0) :: dictSetCI d k v := by
+  have hne : k0 ≠ k := fun e => by rw [e, ciEq_refl] at h; cases h
+  simp [dictSetCI, otherSpelling_of_ne hne, h, dictSet, hne]
+
+/-- Reading an exact key after the other spellings of `k` have been deleted. -/
+theorem dictGet_filter_other (d : Dict) (k k' : Str) :
+    dictGet (d.filter (fun kv => !otherSpelling k kv.1)) k' = if otherSpelling k k' then none else dictGet d k' := by
   induction d with
-  | nil => rfl
+  | nil => simp [dictGet]
   | cons kv d ih =>
     obtain ⟨k1, v1⟩ := kv
-    have hnd' : k1 ∉ dictKeys d ∧ (dictKeys d).Nodup := by simpa [dictKeys] using hnd
-    have hd : ∀ k ∈ dictKeys d, ciEq k name = true ↔ k = k0 :=
-      fun k hk => h k (by simp only [dictKeys, List.map_cons, List.mem_cons]; exact Or.inr hk)
-    have h1 := h k1 (by simp [dictKeys])
-    rw [wireLookup_cons, ih hnd'.2 hd]
-    by_cases hk : k1 = k0
-    · subst hk
-      rw [h1.mpr rfl, dictGet_eq_none_of_not_mem d k1 hnd'.1]
-      simp [dictGet]
-    · have : ciEq k1 name = false := by
-        cases hc : ciEq k1 name with
-        | false => rfl
-        | true => exact absurd (h1.mp hc) hk
-      simp [this, dictGet, hk]
+    rw [List.filter_cons]
+    cases ho : otherSpelling k k1 with
+    | true =>
+      simp only [Bool.not_true, Bool.false_eq_true, if_false, ih, dictGet]
+      by_cases h1 : k1 = k'
+      · subst h1; simp [ho]
+      · simp [h1]
+    | false =>
+      simp only [Bool.not_false, if_true, dictGet, ih]
+      by_cases h1 : k1 = k'
+      · subst h1; simp [ho]
+      · simp [h1]
 
-theorem lastWriteCI_of_no_match (ws : Dict) (name : Str) (h : ∀ k ∈ dictKeys ws, ciEq k name = false) :
-    lastWriteCI ws name = none := by
+/-- `merge_headers(d, {k: v})` read back by exact key: `k` holds `v`, another spelling of `k` is gone, every other
+    key is untouched. -/
+theorem dictGet_dictSetCI (d : Dict) (k v k' : Str) :
+    dictGet (dictSetCI d k v) k' = if k = k' then some v else if ciEq k k' then none else dictGet d k' := by
+  unfold dictSetCI
+  rw [dictGet_dictSet, dictGet_filter_other]
+  by_cases h : k = k'
+  · simp [h]
+  · have h' : k' ≠ k := fun e => h e.symm
+    simp [h, otherSpelling_of_ne h', ciEq_comm k' k]
+
+theorem lastWriterCI_append (a b : Dict) (name : Str) :
+    lastWriterCI (a ++ b) name = (lastWriterCI b name).or (lastWriterCI a name) := by
+  induction a with
+  | nil => simp [lastWriterCI]
+  | cons kv a ih =>
+    obtain ⟨k0, v0⟩ := kv
+    simp [lastWriterCI, ih, Option.or_assoc]
+
+theorem lastWriteCI_eq_map (ws : Dict) (name : Str) :
+    lastWriteCI ws name = (lastWriterCI ws name).map Prod.snd := by
   induction ws with
   | nil => rfl
   | cons kv ws ih =>
     obtain ⟨k0, v0⟩ := kv
-    have := ih (fun k hk => h k (by simp only [dictKeys, List.map_cons, List.mem_cons]; exact Or.inr hk))
-    simp [lastWriteCI, this, h k0 (by simp [dictKeys])]
+    simp only [lastWriteCI, lastWriterCI, ih]
+    cases lastWriterCI ws name <;> cases ciEq k0 name <;> simp
 
-theorem lastWriteCI_of_unique (ws : Dict) (name k0 : Str)
-    (h : ∀ k ∈ dictKeys ws, ciEq k name = true ↔ k = k0) : lastWriteCI ws name = lastWrite ws k0 := by
+/-- The spelling recorded for the last writer of `name` is a spelling of `name`. -/
+theorem ciEq_of_lastWriterCI (ws : Dict) (name : Str) (w : Str × Str) (h : lastWriterCI ws name = some w) :
+    ciEq w.1 name = true := by
   induction ws with
-  | nil => rfl
+  | nil => simp [lastWriterCI] at h
   | cons kv ws ih =>
-    obtain ⟨k1, v1⟩ := kv
-    have := ih (fun k hk => h k (by simp only [dictKeys, List.map_cons, List.mem_cons]; exact Or.inr hk))
-    have h1 := h k1 (by simp [dictKeys])
-    simp only [lastWriteCI, lastWrite, this]
-    by_cases hk : k1 = k0
-    · have hm : ciEq k1 name = true := h1.mpr hk
-      subst hk
-      cases lastWrite ws k1 <;> simp [hm]
-    · have : ciEq k1 name = false := by
-        cases hc : ciEq k1 name with
-        | false => rfl
-        | true => exact absurd (h1.mp hc) hk
-      simp [this, hk]
+    obtain ⟨k0, v0⟩ := kv
+    simp only [lastWriterCI] at h
+    cases hl : lastWriterCI ws name with
+    | some w' => rw [hl] at h ih; simp only [Option.some_or, Option.some.injEq] at h; subst h; exact ih rfl
+    | none =>
+      rw [hl] at h
+      by_cases hc : ciEq k0 name = true
+      · simp only [hc, if_true, Option.or_some, Option.some.injEq] at h; subst h; exact hc
+      · simp [hc] at h
 
-/-- On the wire the last writer wins — provided no two written names differ only in case. -/
-theorem wireLookup_dictUpdate (ws : Dict) (hc : CaseConsistent ws) (name : Str) :
-    wireLookup (dictUpdate [] ws) name = (lastWriteCI ws name).toList := by
-  have hnd : (dictKeys (dictUpdate [] ws)).Nodup := nodup_dictUpdate ws [] (by simp [dictKeys])
-  have hsub : ∀ k ∈ dictKeys (dictUpdate [] ws), k ∈ dictKeys ws := by
-    intro k hk
-    rcases (mem_dictKeys_dictUpdate ws [] k).mp hk with h | h
-    · simp [dictKeys] at h
-    · exact h
-  by_cases hex : ∃ k0 ∈ dictKeys ws, ciEq k0 name = true
-  · obtain ⟨k0, hk0, hm⟩ := hex
-    have huniq : ∀ k ∈ dictKeys ws, ciEq k name = true ↔ k = k0 := by
-      intro k hk
-      constructor
-      · intro h; exact hc k hk k0 hk0 (ciEq_trans h (ciEq_symm hm))
-      · intro h; subst h; exact hm
-    rw [wireLookup_of_unique _ hnd name k0 (fun k hk => huniq k (hsub k hk)),
-      lastWriteCI_of_unique ws name k0 huniq, dictGet_dictUpdate]
-    simp [dictGet]
-  · have hno : ∀ k ∈ dictKeys ws, ciEq k name = false := by
-      intro k hk
-      cases h : ciEq k name with
-      | false => rfl
-      | true => exact absurd ⟨k, hk, h⟩ hex
-    rw [wireLookup_of_no_match _ name (fun k hk => hno k (hsub k hk)), lastWriteCI_of_no_match ws name hno]
-    rfl
+/-- The dict after a sequence of case-insensitive writes, read by EXACT key: `k` is present iff the last
+    writer of that header name (any spelling) spelled it `k`, and then carries that writer's value. -/
+theorem dictGet_dictUpdateCI (ws d : Dict) (k : Str) :
+    dictGet (dictUpdateCI d ws) k =
+      match lastWriterCI ws k with
+      | some w => if w.1 = k then some w.2 else none
+      | none => dictGet d k := by
+  induction ws generalizing d with
+  | nil => simp [lastWriterCI]
+  | cons kv ws ih =>
+    obtain ⟨k0, v0⟩ := kv
+    rw [dictUpdateCI_cons, ih, dictGet_dictSetCI]
+    simp only [lastWriterCI]
+    cases lastWriterCI ws k with
+    | some w => simp
+    | none =>
+      by_cases h : k0 = k
+      · subst h; simp [ciEq_refl]
+      · cases hc : ciEq k0 k <;> simp [h]
+
+/-- Deleting the other spellings of a name that is itself absent: nothing is left under that name. -/
+theorem wireLookup_filter_other (d : Dict) (k name : Str) (hk : k ∉ dictKeys d) :
+    wireLookup (d.filter (fun kv => !otherSpelling k kv.1)) name
+      = if ciEq k name then [] else wireLookup d name := by
+  induction d with
+  | nil => simp [wireLookup]
+  | cons kv d ih =>
+    obtain ⟨k1, v1⟩ := kv
+    have hk' : k1 ≠ k ∧ k ∉ dictKeys d := by
+      simp only [dictKeys, List.map_cons, List.mem_cons, not_or] at hk
+      exact ⟨fun e => hk.1 e.symm, hk.2⟩
+    rw [List.filter_cons, otherSpelling_of_ne hk'.1, wireLookup_cons]
+    cases hc : ciEq k1 k with
+    | true =>
+      simp only [Bool.not_true, Bool.false_eq_true, if_false, ih hk'.2]
+      cases hn : ciEq k name with
+      | true => simp
+      | false =>
+        have : ciEq k1 name = false := by
+          cases h1 : ciEq k1 name with
+          | false => rfl
+          | true => rw [ciEq_trans (ciEq_symm hc) h1] at hn; cases hn
+        simp [this]
+    | false =>
+      simp only [Bool.not_false, if_true, wireLookup_cons, ih hk'.2]
+      cases hn : ciEq k name with
+      | true =>
+        have : ciEq k1 name = false := by
+          cases h1 : ciEq k1 name with
+          | false => rfl
+          | true => rw [ciEq_trans h1 (ciEq_symm hn)] at hc; cases hc
+        simp [this]
+      | false => simp
+
+/-- On the wire, `merge_headers(d, {k: v})` leaves exactly one line under the name of `k`, carrying `v`, and
+    touches no other name. -/
+theorem wireLookup_dictSetCI (d : Dict) (hnd : (dictKeys d).Nodup) (k v name : Str) :
+    wireLookup (dictSetCI d k v) name = if ciEq k name then [v] else wireLookup d name := by
+  induction d with
+  | nil => rw [show dictSetCI [] k v = [(k, v)] from rfl, wireLookup_cons, wireLookup_nil]
+  | cons kv d ih =>
+    obtain ⟨k0, v0⟩ := kv
+    have hnd' : k0 ∉ dictKeys d ∧ (dictKeys d).Nodup := by simpa [dictKeys] using hnd
+    by_cases h0 : k0 = k
+    · subst h0
+      rw [dictSetCI_cons_self, wireLookup_cons, wireLookup_filter_other d k0 name hnd'.1, wireLookup_cons]
+      cases ciEq k0 name <;> simp
+    · cases hc : ciEq k0 k with
+      | true =>
+        rw [dictSetCI_cons_variant d k0 v0 k v h0 hc, ih hnd'.2, wireLookup_cons]
+        cases hn : ciEq k name with
+        | true => simp
+        | false =>
+          have : ciEq k0 name = false := by
+            cases h1 : ciEq k0 name with
+            | false => rfl
+            | true => rw [ciEq_trans (ciEq_symm hc) h1] at hn; cases hn
+          simp [this]
+      | false =>
+        rw [dictSetCI_cons_other d k0 v0 k v hc, wireLookup_cons, ih hnd'.2, wireLookup_cons]
+        cases hn : ciEq k name with
+        | true =>
+          have : ciEq k0 name = false := by
+            cases h1 : ciEq k0 name with
+            | false => rfl
+            | true => rw [ciEq_trans h1 (ciEq_symm hn)] at hc; cases hc
+          simp [this]
+        | false => simp
+
+theorem nodup_dictSetCI (d : Dict) (k v : Str) (h : (dictKeys d).Nodup) : (dictKeys (dictSetCI d k v)).Nodup := by
+  unfold dictSetCI
+  apply nodup_dictSet
+  have : dictKeys (d.filter (fun kv => !otherSpelling k kv.1)) = (dictKeys d).filter (fun x => !otherSpelling k x) := by
+    simp only [dictKeys, List.filter_map]; rfl
+  rw [this]
+  exact List.Pairwise.filter _ h
+
+theorem nodup_dictUpdateCI (ws d : Dict) (h : (dictKeys d).Nodup) : (dictKeys (dictUpdateCI d ws)).Nodup := by
+  induction ws generalizing d with
+  | nil => simpa using h
+  | cons kv ws ih => rw [dictUpdateCI_cons]; exact ih _ (nodup_dictSetCI d kv.1 kv.2 h)
+
+/-- On the wire the last writer wins, for every sequence of writes: one line per written name. -/
+theorem wireLookup_dictUpdateCI (ws d : Dict) (hnd : (dictKeys d).Nodup) (name : Str) :
+    wireLookup (dictUpdateCI d ws) name =
+      match lastWriteCI ws name with
+      | some v => [v]
+      | none => wireLookup d name := by
+  induction ws generalizing d with
+  | nil => simp [lastWriteCI]
+  | cons kv ws ih =>
+    obtain ⟨k0, v0⟩ := kv
+    rw [dictUpdateCI_cons, ih _ (nodup_dictSetCI d k0 v0 hnd), wireLookup_dictSetCI d hnd]
+    simp only [lastWriteCI]
+    cases lastWriteCI ws name with
+    | some v => simp
+    | none => cases ciEq k0 name <;> simp
+
+theorem wireLookup_dictUpdateCI_nil (ws : Dict) (name : Str) :
+    wireLookup (dictUpdateCI [] ws) name = (lastWriteCI ws name).toList := by
+  rw [wireLookup_dictUpdateCI ws [] (by simp [dictKeys])]
+  cases lastWriteCI ws name <;> simp [wireLookup]
+
+/-- A name that was written (in some spelling) has a last writer. -/
+theorem lastWriteCI_isSome_of_mem (ws : Dict) (k name : Str) (hk : k ∈ dictKeys ws) (hc : ciEq k name = true) :
+    (lastWriteCI ws name).isSome = true := by
+  induction ws with
+  | nil => simp [dictKeys] at hk
+  | cons kv ws ih =>
+    obtain ⟨k0, v0⟩ := kv
+    simp only [dictKeys, List.map_cons, List.mem_cons] at hk
+    simp only [lastWriteCI]
+    rcases hk with h | h
+    · subst h; cases lastWriteCI ws name <;> simp [hc]
+    · have := ih h
+      cases hl : lastWriteCI ws name with
+      | none => simp [hl] at this
+      | some v => simp
 
 theorem lastWriteCI_append (a b : Dict) (name : Str) :
     lastWriteCI (a ++ b) name = (lastWriteCI b name).or (lastWriteCI a name) := by
@@ -284,13 +443,13 @@ theorem authenticateAll_eq_foldlM (ps : List Plugin) (a : RequestArgs) :
     | error e => simp
 
 theorem setHeader_headers (a : RequestArgs) (h : Dict) (k v : Str) (ha : a.headers = some h) :
-    (a.setHeader k v).headers = some (dictUpdate h [(k, v)]) := by
-  simp [RequestArgs.setHeader, ha, dictUpdate_single]
+    (a.setHeader k v).headers = some (dictUpdateCI h [(k, v)]) := by
+  simp [RequestArgs.setHeader, ha, dictUpdateCI_single]
 
 mutual
 /-- Every plug-in that returns acts on the headers as the sequence of writes `contrib p`. -/
 theorem authenticate_headers : ∀ (p : Plugin) (a r : RequestArgs) (h : Dict), a.headers = some h →
-    authenticate p a = .ok r → r.headers = some (dictUpdate h (contrib p))
+    authenticate p a = .ok r → r.headers = some (dictUpdateCI h (contrib p))
   | .bearer tok, a, r, h, ha, hr => by
     simp only [authenticate, Except.ok.injEq] at hr
     subst hr; exact setHeader_headers a h _ _ ha
@@ -318,7 +477,7 @@ theorem authenticate_headers : ∀ (p : Plugin) (a r : RequestArgs) (h : Dict), 
     rw [authenticate_composite] at hr
     simpa [contrib] using authenticateAll_headers ps a r h ha hr
 theorem authenticateAll_headers : ∀ (ps : List Plugin) (a r : RequestArgs) (h : Dict), a.headers = some h →
-    authenticateAll ps a = .ok r → r.headers = some (dictUpdate h (contribAll ps))
+    authenticateAll ps a = .ok r → r.headers = some (dictUpdateCI h (contribAll ps))
   | [], a, r, h, ha, hr => by
     simp only [authenticateAll, Except.ok.injEq] at hr
     subst hr; simpa [contribAll] using ha
@@ -329,7 +488,7 @@ theorem authenticateAll_headers : ∀ (ps : List Plugin) (a r : RequestArgs) (h 
     | ok a' =>
       simp only [h1] at hr
       have := authenticate_headers p a a' h ha h1
-      rw [contribAll, dictUpdate_append]
+      rw [contribAll, dictUpdateCI_append]
       exact authenticateAll_headers ps a' r _ this hr
 end
 
@@ -431,8 +590,8 @@ theorem firstErrAll_append (a b : List Plugin) : firstErrAll (a ++ b) = (firstEr
 
 /-- The headers before the auth step: defaults, then per-request headers. -/
 theorem baseHeaders_eq (defaults reqHeaders : Option Dict) :
-    baseHeaders defaults reqHeaders = dictUpdate [] (defaults.getD [] ++ reqHeaders.getD []) := by
-  rw [dictUpdate_append]
+    baseHeaders defaults reqHeaders = dictUpdateCI [] (defaults.getD [] ++ reqHeaders.getD []) := by
+  rw [dictUpdateCI_append]
   rcases defaults with _ | _ | ⟨kv, d⟩ <;> rcases reqHeaders with _ | r <;> simp [baseHeaders]
 
 /-- MASTER CHARACTERISATION of `_prepare_headers`: it raises exactly the plug-in's exception, and
@@ -442,23 +601,23 @@ theorem prepareHeaders_spec (defaults reqHeaders : Option Dict) (auth : Option P
     prepareHeaders defaults reqHeaders auth bearer =
       match auth.bind firstErr with
       | some e => .error e
-      | none => .ok (dictUpdate [] (allWrites defaults reqHeaders auth bearer)) := by
+      | none => .ok (dictUpdateCI [] (allWrites defaults reqHeaders auth bearer)) := by
   unfold prepareHeaders
   simp only [baseHeaders_eq]
   cases auth with
   | none =>
     cases bearer with
     | none => simp [allWrites, authWrites]
-    | some t => simp [allWrites, authWrites, dictUpdate_append, dictUpdate_single]
+    | some t => simp [allWrites, authWrites, dictUpdateCI_append, dictUpdateCI_single]
   | some p =>
     simp only [Option.bind_some]
     cases hf : firstErr p with
     | some e => simp [authenticate_of_firstErr_some p _ e hf]
     | none =>
       obtain ⟨r, hr⟩ := authenticate_of_firstErr_none p
-        { headers := some (dictUpdate [] (defaults.getD [] ++ reqHeaders.getD [])) } hf
+        { headers := some (dictUpdateCI [] (defaults.getD [] ++ reqHeaders.getD [])) } hf
       have := authenticate_headers p _ r _ rfl hr
-      simp only [allWrites, authWrites, dictUpdate_append] at hr this ⊢
+      simp only [allWrites, authWrites, dictUpdateCI_append] at hr this ⊢
       simp [hr, this]
 
 end Pog
